@@ -287,11 +287,6 @@ class RelativeFilterQuery(FilterQuery):
 
     def evaluate(self, context: FilterContext) -> object:
         """Evaluate the filter expression in the given _context_."""
-        if not isinstance(context.current, (list, dict)):
-            if self.query.empty():
-                return context.current
-            return JSONPathNodeList()
-
         return JSONPathNodeList(self.query.find(context.current))
 
 
